@@ -519,3 +519,181 @@ Proof.
     + simpl. apply slot_free_upd. exact SF.
     + lia.
 Qed.
+
+(** ---- whole operations *)
+Lemma apply_log_app img a b : apply_log img (a ++ b) = apply_log (apply_log img a) b.
+Proof. unfold apply_log. apply fold_left_app. Qed.
+
+Lemma PFr_same_blocks img0 bl0 img fr fr' T :
+  PFr img0 bl0 img fr T -> f_blocks fr' = f_blocks fr -> f_end fr <= f_end fr' -> f_cache fr' = true ->
+  PFr img0 bl0 img fr' T.
+Proof. intros [P _] Hb He Hc. split; auto. rewrite Hb. eapply L_end; eauto. Qed.
+
+Lemma PFr_hd_ndds img0 bl0 img fr T : PFr img0 bl0 img fr T -> 0 <= hd_ndds fr.
+Proof.
+  intros [P _]. destruct (PF_T_nonempty _ _ _ _ _ _ P) as (t0 & T0 & ->).
+  destruct P as (_ & I & _ & _ & _ & HM & _). unfold hd_ndds. destruct (f_blocks fr) as [|hd tl]; [lia|].
+  simpl in HM. inversion HM as [[E1 E2]]. pose proof (i_ok _ _ I) as Hok. inversion Hok as [|? ? Hok0 _].
+  destruct Hok0 as [(_ & _ & _ & _ & (R1 & _)) _]. subst. rewrite <- ?E1. lia.
+Qed.
+
+Lemma PFr_above img0 bl0 img fr T : PFr img0 bl0 img fr T -> Above bl0 T (f_end fr).
+Proof. intros [(_ & _ & _ & _ & _ & _ & _ & A & _) _]. exact A. Qed.
+
+Lemma step_put img0 bl0 img fr T tag ref len data :
+  PFr img0 bl0 img fr T -> op_ok (OpPut tag ref len data) = true ->
+  forall fr' w, op_put fr tag ref len data = (fr', w) -> f_end fr' < 2147483648 ->
+  exists T', PFr img0 bl0 (apply_log img w) fr' T'.
+Proof.
+  intros PR Hok fr' w Hop Hb. unfold op_put in Hop.
+  destruct (has_dd fr tag ref); [inversion Hop; subst; exists T; exact PR|].
+  simpl in Hok. repeat (apply andb_prop in Hok; destruct Hok as [Hok ?]).
+  repeat match goal with
+         | X : (_ <=? _) = true |- _ => apply Z.leb_le in X
+         | X : (_ <? _) = true |- _ => apply Z.ltb_lt in X
+         end.
+  assert (Hc : f_cache fr = true) by (destruct PR; assumption).
+  destruct (create_dd fr tag ref) as [[slot fr1] w1] eqn:C.
+  destruct (create_dd_mono fr tag ref (f_end fr) Hc (PFr_hd_ndds _ _ _ _ _ PR) ltac:(lia) _ _ _ C) as (C1 & C2 & _ & _).
+  assert (Hc1 : f_cache fr1 = true) by congruence.
+  destruct (getdiskblock_shape fr1 len Hc1 ltac:(lia)) as (fr2 & G & Gb & Ge & Gc). rewrite G in Hop.
+  destruct (update_dd_shape fr2 (fst slot) (snd slot) (mkdd tag ref (f_end fr1) len) Gc)
+    as (fr3 & U & Ub & Uc & Ue & Uv & Ux).
+  rewrite U in Hop.
+  assert (Hb3 : f_end fr3 <= f_end fr').
+  { destruct data; inversion Hop; subst; try lia.
+    destruct (Z.ltb_spec (f_end fr3) (f_end fr1 + zlen (z :: data))); simpl; lia. }
+  destruct (step_create _ _ _ _ _ tag ref PR ltac:(lia) ltac:(lia) _ _ _ C ltac:(lia)) as (T1 & PR1 & SF & _).
+  pose proof (PFr_above _ _ _ _ _ PR1) as Ab1.
+  assert (He1 : 0 <= f_end fr1) by (destruct Ab1 as (_ & _ & X); unfold MAGICLEN in X; lia).
+  pose proof (PFr_same_blocks _ _ _ _ fr2 _ PR1 Gb ltac:(lia) Gc) as PR2.
+  assert (Hd : dd_in_range (mkdd tag ref (f_end fr1) len)) by (unfold dd_in_range; simpl; lia).
+  destruct (step_update _ _ _ _ _ _ _ _ PR2 SF Hd) as (fr3' & U' & PR3 & _).
+  rewrite U in U'. inversion U'; subst fr3'; clear U'.
+  destruct data as [|b0 data'].
+  - inversion Hop; subst. rewrite !app_nil_r. eexists. exact PR3.
+  - inversion Hop; subst; clear Hop.
+    rewrite ?app_nil_l. rewrite apply_log_app. simpl.
+    exists (upd_tm (fst slot) (fill (snd slot) (mkdd tag ref (f_end fr1) len)) T1).
+    apply (PFr_same_blocks _ _ _ fr3).
+    + destruct PR3 as [P3 Hc3]. split; [|exact Hc3]. apply L_write; [exact P3|apply Above_upd; exact Ab1].
+    + destruct (f_end fr3 <? _); reflexivity.
+    + destruct (Z.ltb_spec (f_end fr3) (f_end fr1 + zlen (b0 :: data'))); simpl; lia.
+    + destruct (f_end fr3 <? _); simpl; exact Uc.
+Qed.
+
+Lemma step_app_writes img0 bl0 chunks : forall img fr T slot tag ref off posn,
+  PFr img0 bl0 img fr T -> slot_free T (fst slot) (snd slot) -> Above bl0 T off -> 0 <= posn ->
+  0 <= tag < 65536 -> 0 <= ref < 65536 ->
+  forall fr' w, app_writes fr slot tag ref off posn chunks = (fr', w) -> f_end fr' < 2147483648 ->
+  exists T', PFr img0 bl0 (apply_log img w) fr' T'.
+Proof.
+  induction chunks as [|c r IH]; intros img fr T slot tag ref off posn PR SF Ab Hp Ht Hr fr' w Hop Hb; simpl in Hop.
+  - inversion Hop; subst. exists T. exact PR.
+  - assert (Hc : f_cache fr = true) by (destruct PR; assumption).
+    assert (Hoff : MAGICLEN <= off) by (destruct Ab as (_ & _ & X); exact X).
+    assert (Hz : 0 <= zlen c) by (unfold zlen; lia).
+    destruct (update_dd_shape fr (fst slot) (snd slot) (mkdd tag ref off (posn + zlen c)) Hc)
+      as (fr1 & U & Ub & Uc & Ue & Uv & Ux).
+    rewrite U in Hop.
+    set (fr2 := if f_end fr1 <? off + posn + zlen c then set_end fr1 (off + posn + zlen c) else fr1) in *.
+    assert (F2 : f_blocks fr2 = f_blocks fr1 /\ f_cache fr2 = true /\ f_end fr1 <= f_end fr2).
+    { unfold fr2. destruct (Z.ltb_spec (f_end fr1) (off + posn + zlen c)); simpl; repeat split; auto; lia. }
+    destruct F2 as (F2b & F2c & F2e).
+    destruct (app_writes fr2 slot tag ref off (posn + zlen c) r) as [fr3 w3] eqn:R.
+    inversion Hop; subst; clear Hop.
+    assert (Hv : dd_valid (mkdd tag ref off (posn + zlen c)) = true).
+    { unfold dd_valid, INVALID_OFFSET, INVALID_LENGTH, MAGICLEN in *; simpl.
+      destruct (Z.eqb_spec off (-1)); [lia|]. destruct (Z.eqb_spec (posn + zlen c) (-1)); [lia|]. reflexivity. }
+    specialize (Uv Hv). simpl in Uv.
+    assert (Hoe : off <= f_end fr2) by lia.
+    destruct (app_writes_mono r fr2 slot tag ref off (posn + zlen c) off F2c Hoe (Z.le_refl off) ltac:(lia) _ _ R)
+      as (_ & Mo2 & _ & _).
+    assert (Hd : dd_in_range (mkdd tag ref off (posn + zlen c))).
+    { unfold dd_in_range, MAGICLEN in *; simpl. lia. }
+    destruct (step_update _ _ _ _ _ _ _ _ PR SF Hd) as (fr1' & U' & PR1 & _).
+    rewrite U in U'. inversion U'; subst fr1'; clear U'.
+    pose proof (PFr_same_blocks _ _ _ _ fr2 _ PR1 F2b F2e F2c) as PR2.
+    assert (Ab' : Above bl0 (upd_tm (fst slot) (fill (snd slot) (mkdd tag ref off (posn + zlen c))) T) off)
+      by (apply Above_upd; exact Ab).
+    assert (PR2' : PFr img0 bl0 (write_at img (off + posn) c) fr2
+                       (upd_tm (fst slot) (fill (snd slot) (mkdd tag ref off (posn + zlen c))) T)).
+    { destruct PR2 as [P2 C2]. split; [|exact C2]. apply L_write; [exact P2|]. eapply Above_mono; [exact Ab'|lia]. }
+    simpl. apply (IH _ fr2 _ slot tag ref off (posn + zlen c) PR2'); auto; try lia.
+    apply slot_free_upd. exact SF.
+Qed.
+
+Lemma step_app img0 bl0 img fr T tag ref chunks :
+  PFr img0 bl0 img fr T -> op_ok (OpApp tag ref chunks) = true ->
+  forall fr' w, op_app fr tag ref chunks = (fr', w) -> f_end fr' < 2147483648 ->
+  exists T', PFr img0 bl0 (apply_log img w) fr' T'.
+Proof.
+  intros PR Hok fr' w Hop Hb. unfold op_app in Hop.
+  destruct (has_dd fr tag ref); [inversion Hop; subst; exists T; exact PR|].
+  simpl in Hok. repeat (apply andb_prop in Hok; destruct Hok as [Hok ?]).
+  repeat match goal with
+         | X : (_ <=? _) = true |- _ => apply Z.leb_le in X
+         | X : (_ <? _) = true |- _ => apply Z.ltb_lt in X
+         end.
+  assert (Hc : f_cache fr = true) by (destruct PR; assumption).
+  destruct (create_dd fr tag ref) as [[slot fr1] w1] eqn:C.
+  destruct (create_dd_mono fr tag ref (f_end fr) Hc (PFr_hd_ndds _ _ _ _ _ PR) ltac:(lia) _ _ _ C) as (C1 & C2 & _ & _).
+  assert (Hc1 : f_cache fr1 = true) by congruence.
+  destruct chunks as [|c r].
+  - inversion Hop; subst.
+    destruct (step_create _ _ _ _ _ tag ref PR ltac:(lia) ltac:(lia) _ _ _ C Hb) as (T1 & PR1 & _). eauto.
+  - assert (Hz : 0 <= zlen c) by (unfold zlen; lia).
+    destruct (getdiskblock_shape fr1 (zlen c) Hc1 Hz) as (fr2 & G & Gb & Ge & Gc). rewrite G in Hop.
+    destruct (update_dd_shape fr2 (fst slot) (snd slot) (mkdd tag ref (f_end fr1) (zlen c)) Gc)
+      as (fr3 & U & Ub & Uc & Ue & Uv & Ux).
+    rewrite U in Hop.
+    set (fr4 := if f_end fr3 <? f_end fr1 + zlen c then set_end fr3 (f_end fr1 + zlen c) else fr3) in *.
+    assert (F4 : f_blocks fr4 = f_blocks fr3 /\ f_cache fr4 = true /\ f_end fr3 <= f_end fr4).
+    { unfold fr4. destruct (Z.ltb_spec (f_end fr3) (f_end fr1 + zlen c)); simpl; repeat split; auto; lia. }
+    destruct F4 as (F4b & F4c & F4e).
+    destruct (app_writes fr4 slot tag ref (f_end fr1) (zlen c) r) as [fr5 w5] eqn:R.
+    inversion Hop; subst; clear Hop.
+    destruct (app_writes_mono r fr4 slot tag ref (f_end fr1) (zlen c) (f_end fr1) F4c ltac:(lia) ltac:(lia) Hz _ _ R)
+      as (_ & Mo2 & _ & _).
+    destruct (step_create _ _ _ _ _ tag ref PR ltac:(lia) ltac:(lia) _ _ _ C ltac:(lia)) as (T1 & PR1 & SF & _).
+    pose proof (PFr_above _ _ _ _ _ PR1) as Ab1.
+    assert (He1 : 0 <= f_end fr1) by (destruct Ab1 as (_ & _ & X); unfold MAGICLEN in X; lia).
+    pose proof (PFr_same_blocks _ _ _ _ fr2 _ PR1 Gb ltac:(lia) Gc) as PR2.
+    assert (Hd : dd_in_range (mkdd tag ref (f_end fr1) (zlen c))) by (unfold dd_in_range; simpl; lia).
+    destruct (step_update _ _ _ _ _ _ _ _ PR2 SF Hd) as (fr3' & U' & PR3 & _).
+    rewrite U in U'. inversion U'; subst fr3'; clear U'.
+    pose proof (PFr_same_blocks _ _ _ _ fr4 _ PR3 F4b F4e F4c) as PR4.
+    assert (Ab3 : Above bl0 (upd_tm (fst slot) (fill (snd slot) (mkdd tag ref (f_end fr1) (zlen c))) T1) (f_end fr1))
+      by (apply Above_upd; exact Ab1).
+    assert (PR4' : PFr img0 bl0 (write_at (apply_log img w1) (f_end fr1) c) fr4
+                       (upd_tm (fst slot) (fill (snd slot) (mkdd tag ref (f_end fr1) (zlen c))) T1)).
+    { destruct PR4 as [P4 C4]. split; [|exact C4]. apply L_write; [exact P4|exact Ab3]. }
+    rewrite ?app_nil_l. rewrite apply_log_app. simpl.
+    apply (step_app_writes img0 bl0 r _ fr4 _ slot tag ref (f_end fr1) (zlen c) PR4'); auto; try lia.
+    apply slot_free_upd. exact SF.
+Qed.
+
+Lemma run_ops_PFr img0 bl0 ops : forall img fr T,
+  PFr img0 bl0 img fr T -> forallb op_ok ops = true ->
+  forall fr' w, run_ops fr ops = (fr', w) -> f_end fr' < 2147483648 ->
+  exists T', PFr img0 bl0 (apply_log img w) fr' T'.
+Proof.
+  induction ops as [|o r IH]; intros img fr T PR Hok fr' w Hrun Hb; simpl in Hrun.
+  - inversion Hrun; subst. exists T. exact PR.
+  - simpl in Hok. apply andb_prop in Hok. destruct Hok as [Ho Hr].
+    destruct (run_op fr o) as [fr1 w1] eqn:R1. destruct (run_ops fr1 r) as [fr2 w2] eqn:R2.
+    inversion Hrun; subst; clear Hrun.
+    assert (Hc : f_cache fr = true) by (destruct PR; assumption).
+    pose proof (PFr_hd_ndds _ _ _ _ _ PR) as Hn.
+    assert (M1 : mono (f_end fr) fr fr1 w1).
+    { pose proof (op_ok_len o Ho) as L. destruct o; simpl in R1.
+      - eapply op_put_mono; eauto; lia.
+      - eapply op_app_mono; eauto; lia. }
+    destruct M1 as (A1 & B1 & _ & D1).
+    pose proof (run_ops_mono r fr1 (f_end fr1) ltac:(congruence) ltac:(congruence) ltac:(lia) Hr _ _ R2) as (_ & B2 & _).
+    assert (PR1 : exists T1, PFr img0 bl0 (apply_log img w1) fr1 T1).
+    { destruct o; simpl in R1.
+      - eapply step_put; eauto. lia.
+      - eapply step_app; eauto. lia. }
+    destruct PR1 as (T1 & PR1). rewrite apply_log_app. eapply IH; eauto.
+Qed.
